@@ -59,6 +59,10 @@ def sites(crate):
                 tgt = _resolve(crate, body, a)
                 if tgt is not None and returns_some(tgt, depth + 1):
                     continue
+            if is_call(a, "or") and len(a[3]) == 2 and a[3][1][0] == "agg" and a[3][1][2] == "Some":
+                continue        # x.or(Some(_)) is never None
+            if is_call(a, ("Some",)):
+                continue
             ok = False
         always_some[body.path] = ok
         return ok
